@@ -425,7 +425,6 @@ package flags
 //@   pure
 //@ assumed func os.Exit(code int)
 //@   ensures false
-//@ assumed func (c *completion) complete(args []string) (r []Completion)
 //@ assumed func (c *completion) print(items []Completion, showDescriptions bool)
 //@   traced
 //@ assumed func Commander.Execute(c Commander, args []string) (err error)
@@ -1417,3 +1416,25 @@ package flags
 // of the table, whatever order the runtime ranges over it; it is not exported
 // as a postcondition because the order is a ghost of the loop)
 //@   assigns nothing
+
+//@ assumed func sort.Sort.completions(data completions) (perm []int, inv []int)
+//@   updates data
+//@   ensures forall(i, 0, len(data), 0 <= perm[i] && perm[i] < len(data) && data[i] == old(data)[perm[i]])
+//@   ensures forall(j, 0, len(data), 0 <= inv[j] && inv[j] < len(data) && old(data)[j] == data[inv[j]])
+//@   ensures forall(i, 0, len(data), forall(j, i, len(data), data[i].Item <= data[j].Item))
+
+// Value completion: the completions of the option's type, each with the
+// spelling typed so far put back in front.
+//@ assumed func (c *completion) completeValue(value reflect.Value, prefix string, match string) (r []Completion)
+//@   traced
+
+// The walk over the words typed so far, then the dispatch on the last word.
+// The result is sorted by item.
+//@ func (c *completion) complete(args []string) (r []Completion)
+//@   props C18 C15 C04
+//@   requires c != nil && c.parser != nil && c.parser.Command != nil
+//@   loop 1 invariant s != nil && s.command != nil && len(s.args) >= 1
+//@   loop 1 decreases len(s.args)
+//@   loop 2 invariant canarg && (idx_2 > 0 ==> o != nil && idx_2 >= utf8w(optname) && !(shortOpt(s, optname, 0) != nil && shortOpt(s, optname, 0).canArgument() && utf8w(optname) < len(optname)))
+//@   at[C18] call Option.canArgument #2: !islong ==> canarg == !(len(optname) > 0 && shortOpt(s, optname, 0) != nil && shortOpt(s, optname, 0).canArgument() && utf8w(optname) < len(optname))
+//@   ensures[C15,C18] forall(i, 0, len(r), forall(j, i, len(r), r[i].Item <= r[j].Item))
